@@ -88,6 +88,13 @@ def check_assemble_trace_functionals(tier, seed):
         n_base = int(rng.choice([1, 2, 3, 70])) if rep % 5 == 0 else int(rng.integers(1, 4))
         tr = random_trace(rng, chains, steps, ploidy, n_base, int(rng.integers(1, 5)))
         burn = int(rng.integers(0, steps))
+        if rep % 4 == 1:
+            # the most probable genotype is NOT in the best-supported set of haplotypes: {A,B,C} split over dosage variants
+            # (3 + 3 steps) outweighs the single genotype AABB (4 steps)
+            ploidy, n_base, chains, steps, burn = 4, 2, 1, 10, 0
+            A_, B_, C_ = np.array([0, 0], dtype=np.int8), np.array([0, 1], dtype=np.int8), np.array([1, 0], dtype=np.int8)
+            seq = [np.array([A_, A_, B_, B_])] * 4 + [np.array([A_, A_, B_, C_])] * 3 + [np.array([A_, B_, B_, C_])] * 3
+            tr = np.array([[seq[i][rng.permutation(4)] for i in rng.permutation(10)]], dtype=np.int8)
         inp = {"trace": tr.tolist() if n_base < 10 else "shape %r (seed %d rep %d)" % (tr.shape, seed, rep), "burn": burn}
         post = oracle_posterior(tr, burn)
         ev += 1
